@@ -41,8 +41,10 @@ class Watchdog(Exception):
     pass
 
 
-def gen_direct(parts):
-    rng = random.Random(seed_int("direct", *parts))
+def gen_direct(parts, variant=None):
+    """variant "planner": graphs with unique task names (dag / dagrel), every decision names its worker, look-ahead more
+    often: the states on which the bundled planners can be shadow-invoked"""
+    rng = random.Random(seed_int("direct", *parts, *([variant] if variant else [])))
     res_names = ["CPU"] if rng.random() < 0.7 else ["CPU", "GPU"]
     pools = []
     for p in range(rng.randint(1, 2)):
@@ -52,7 +54,7 @@ def gen_direct(parts):
         pools.append({"name": f"P{p}", "workers": ws})
     graphs = []
     for g in range(rng.randint(1, 3)):
-        kind = rng.choice(["stream", "stream", "dag"])
+        kind = rng.choice(["stream", "stream", "dag", "dagrel"] if variant != "planner" else ["dag", "dagrel", "dagrel"])
         njobs = rng.randint(1, 3) if kind == "stream" else rng.randint(2, 5)
         nts = rng.randint(2, 3) if kind == "stream" else 1
         jobs = [f"J{g}{j}" for j in range(njobs)]
@@ -69,6 +71,9 @@ def gen_direct(parts):
                 rel = -1
                 if not has_same_ts_parent:
                     rel = base_release + ts * rng.choice([0, 2, 5, 9])
+                elif kind == "dagrel" and rng.random() < 0.6:
+                    # a task below a parent that also carries its own (known) release time: it may not start before it
+                    rel = base_release + rng.randint(1, 25)
                 tasks.append({"job": j, "ts": ts, "strategies": strategies, "release": rel, "deadline": rng.randint(30, 200)})
         for a, b in jedges:
             for ts in range(nts):
@@ -84,6 +89,22 @@ def gen_direct(parts):
     # drawn last so that the worlds of earlier runs keep their other dimensions
     policy["p_cancel"] = rng.choice([0.0, 0.0, 0.04, 0.12])
     policy["p_replan"] = rng.choice([0.0, 0.5, 1.0])
+    # batches: some jobs' strategies admit 2-3 requests per batch; the chaos policy then answers several timestamps of such a
+    # job with ONE BatchStrategy object (possibly at different times, so that a batch drains before its last member arrives)
+    policy["p_batch"] = rng.choice([0.0, 0.0, 0.5, 0.9])
+    policy["pin_all"] = policy["pin_worker"] and rng.random() < 0.6
+    if variant == "planner":
+        policy["pin_worker"] = policy["pin_all"] = True
+        policy["lookahead"] = rng.choice([0, 3, 10, 10, 100])
+        policy["max_offset"] = rng.choice([2, 6, 12])
+        policy["p_batch"] = 0.0  # batches only arise under the batching policy; the planners are not judged on them
+    policy["shadow_discretization"] = rng.choice([1, 2, 3, 5])
+    for g in graphs:
+        bs = {}
+        for t in g["tasks"]:
+            if t["job"] not in bs:
+                bs[t["job"]] = rng.choice([1, 1, 2, 3])
+            t["batch_size"] = bs[t["job"]]
     return {"pools": pools, "graphs": graphs, "policy": policy, "frequency": rng.choice([-1, -1, 1, 4]), "timeout": rng.choice([120, 200, 400]),
             "res_names": res_names}
 
@@ -104,13 +125,18 @@ class Ctx:
         self.end_time = None
         self.task_spec = {}
         self.policy_decision = {}  # id(task) -> the Placement the chaos policy returned last (boundary record)
+        self.task_obj = {}         # id(task) -> Task
+        self.worker_info = {}      # id(worker) -> {"wid", "pool", "cap"}
+        self.shadow_call = None
+        self.shadow = False
+        self.planner_rounds = 0
 
     def count(self, k, n=1):
         self.counters[k] = self.counters.get(k, 0) + n
 
-    def violate(self, prop, kind, detail):
+    def violate(self, prop, kind, detail, **facts):
         if len(self.viol) < 12:
-            self.viol.append({"prop": prop, "kind": kind, "detail": detail})
+            self.viol.append({"prop": prop, "kind": kind, "detail": detail, "facts": facts})
 
 
 _CTX = None
@@ -176,6 +202,7 @@ def _install():
             r = {"key": (task.task_graph, task.job.name, task.timestamp), "released": None, "starts": [], "finishes": [], "decision": None}
             ctx.rec[id(task)] = r
             ctx.by_key[r["key"]] = r
+            ctx.task_obj[id(task)] = task
         return r
 
     @active
@@ -270,10 +297,23 @@ def _install():
         d = {}
         for rsrc, q in execution_strategy.resources.resources:
             d[rsrc.name] = d.get(rsrc.name, 0) + q
-        res[id(task)] = d
+        for wid_other, other in ctx.resident.items():
+            if wid_other != id(self) and any(id(task) in ent["members"] for ent in other.values()):
+                ctx.violate("C01", "two_workers", f"{task.unique_name} placed on worker {self.name} while resident on another worker")
+        if isinstance(execution_strategy, wl.BatchStrategy):
+            # a batch counts once, for as long as at least one member is resident
+            ent = res.setdefault(("batch", id(execution_strategy)), {"demand": d, "members": set(), "size": execution_strategy.batch_size})
+            ent["members"].add(id(task))
+            ctx.count("live_batch_place")
+            if len(ent["members"]) > 1:
+                ctx.count("live_batch_joined")
+            if len(ent["members"]) > ent["size"]:
+                ctx.violate("C01", "batch_overfull", f"worker {self.name}: {len(ent['members'])} members in a batch of size {ent['size']}")
+        else:
+            res[("task", id(task))] = {"demand": d, "members": {id(task)}}
         ctx.count("live_place")
         for n, c in caps.items():
-            used = sum(x.get(n, 0) for x in res.values())
+            used = sum(x["demand"].get(n, 0) for x in res.values())
             if used > c:
                 ctx.violate("C01", "oversubscribed", f"worker {self.name}: {used} {n} resident, capacity {c}")
         if len(res) > 1:
@@ -285,8 +325,21 @@ def _install():
         task = a[-1] if a else k.get("task")
         res = ctx.resident.get(id(self))
         if res is not None:
-            res.pop(id(task), None)
+            for key in list(res):
+                if id(task) in res[key]["members"]:
+                    res[key]["members"].discard(id(task))
+                    if not res[key]["members"]:
+                        del res[key]
+                        if key[0] == "batch":
+                            ctx.count("live_batch_drained")
     wrap(wk.Worker, "remove_task", after=remove_after)
+
+    # ---- C10: what a shadow-invoked bundled policy was offered -------------------------------
+    @active
+    def frontier_after(ctx, ret, self, *a, **k):
+        if ctx.shadow_call is not None and ctx.shadow_call.get("offered") is None:
+            ctx.shadow_call["offered"] = list(ret)
+    wrap(wl.Workload, "get_schedulable_tasks", after=frontier_after)
 
     # ---- C06: lifecycle automaton on every Task mutator ------------------------------------
     def lifecycle(method):
@@ -400,8 +453,9 @@ def _ancestors(ctx, k):
 def _make_chaos(policy, pools_desc):
     from schedulers import BaseScheduler
     from utils import EventTime
-    from workload import Placement, Placements
+    from workload import BatchStrategy, Placement, Placements
     rng = random.Random(policy["seed"])
+    srng = random.Random(policy["seed"] + 1)  # the shadow invocations draw from their own stream
 
     class ChaosScheduler(BaseScheduler):
         def __init__(self):
@@ -409,10 +463,13 @@ def _make_chaos(policy, pools_desc):
                              retract_schedules=policy["retract"], release_taskgraphs=policy["release_taskgraphs"])
 
         def schedule(self, sim_time, workload, worker_pools):
+            if _CTX is not None and _CTX.shadow:
+                _shadow_invocations(_CTX, sim_time, workload, worker_pools, policy, srng)
             tasks = workload.get_schedulable_tasks(sim_time, lookahead=self.lookahead, preemption=False,
                                                    retract_schedules=self.retract_schedules, worker_pools=worker_pools,
                                                    release_taskgraphs=self.release_taskgraphs)
             out = []
+            batches = {}  # batches opened in this answer
             pools = list(worker_pools.worker_pools)
             for task in tasks:
                 if task.state.name == "SCHEDULED" and rng.random() >= policy.get("p_replan", 1.0):
@@ -432,7 +489,7 @@ def _make_chaos(policy, pools_desc):
                 rt = task.release_time
                 if rt is not None and not rt.is_invalid() and when < rt:
                     when = rt  # planning a task before its own release time is a policy bug the simulator asserts on
-                wid = rng.choice(pool.workers).id if policy["pin_worker"] and rng.random() < 0.5 else None
+                wid = rng.choice(pool.workers).id if policy["pin_worker"] and (policy.get("pin_all") or rng.random() < 0.5) else None
                 prev = _CTX.policy_decision.get(id(task)) if _CTX is not None else None
                 if (task.state.name == "SCHEDULED" and prev is not None and prev.is_placed() and prev.placement_time >= sim_time
                         and rng.random() < 0.4):
@@ -442,6 +499,24 @@ def _make_chaos(policy, pools_desc):
                     if pool.id != prev.worker_pool_id:
                         wid = None
                     _CTX.count("chaos_same_slot_replans")
+                if strat.batch_size > 1 and rng.random() < policy.get("p_batch", 0.0):
+                    # members of one batch: same job (same strategy by value), one BatchStrategy object, one pool / worker
+                    key = (task.task_graph, task.job.name, strat.runtime.time, str(sorted((r.name, q) for r, q in strat.resources.resources)))
+                    open_batch = batches.get(key)
+                    if open_batch is None or open_batch["n"] >= strat.batch_size:
+                        open_batch = {"strategy": BatchStrategy(execution_strategy=strat), "pool": pool, "wid": wid, "when": when, "n": 0}
+                        batches[key] = open_batch
+                        if _CTX is not None:
+                            _CTX.count("chaos_batches")
+                    open_batch["n"] += 1
+                    strat, pool, wid = open_batch["strategy"], open_batch["pool"], open_batch["wid"]
+                    if rng.random() < 0.6:
+                        when = max(open_batch["when"], when) if rng.random() < 0.5 else open_batch["when"]
+                        rt = task.release_time
+                        if when < sim_time or (rt is not None and not rt.is_invalid() and when < rt):
+                            when = max(sim_time, rt) if (rt is not None and not rt.is_invalid()) else sim_time
+                    if _CTX is not None:
+                        _CTX.count("chaos_batch_members")
                 out.append(Placement.create_task_placement(task=task, placement_time=when, worker_pool_id=pool.id, worker_id=wid,
                                                            execution_strategy=strat))
             if _CTX is not None:
@@ -453,10 +528,138 @@ def _make_chaos(policy, pools_desc):
     return ChaosScheduler()
 
 
+def _shadow_pols(ctx, policy):
+    pols = getattr(ctx, "_pols", None)
+    if pols is not None:
+        return pols
+    import schedulers as S
+    from utils import EventTime
+    US = EventTime.Unit.US
+    z = EventTime.zero()
+    la, retract, rtg = EventTime(policy["lookahead"], US), bool(policy["retract"]), bool(policy["release_taskgraphs"])
+    disc = policy.get("shadow_discretization", 2)
+    pols = [("EDF", "greedy", S.EDFScheduler(runtime=z, enforce_deadlines=False)),
+            ("EDF_enforce", "greedy", S.EDFScheduler(runtime=z, enforce_deadlines=True)),
+            ("FIFO", "greedy", S.FIFOScheduler(runtime=z, enforce_deadlines=policy["seed"] % 2 == 0)),
+            ("LSF", "greedy", S.LSFScheduler(runtime=z))]
+    if policy.get("pin_all"):
+        # the planners read the worker of running / scheduled tasks from their placement: only worlds in which every
+        # decision names its worker give them the input they are written for
+        pols += [("ILP_goodput", "planner", S.ILPScheduler(runtime=z, lookahead=la, enforce_deadlines=True, goal="max_goodput",
+                                                           retract_schedules=retract, release_taskgraphs=rtg)),
+                 ("ILP_slack", "planner", S.ILPScheduler(runtime=z, lookahead=la, enforce_deadlines=False, goal="max_slack",
+                                                         retract_schedules=retract, release_taskgraphs=rtg)),
+                 ("TetriSched_Gurobi", "planner", S.TetriSchedGurobiScheduler(
+                     runtime=z, lookahead=la, enforce_deadlines=True, retract_schedules=retract, release_taskgraphs=rtg,
+                     goal="max_goodput", time_discretization=EventTime(disc, US), plan_ahead=EventTime(12, US),
+                     time_limit=EventTime(-1, US)))]
+        if not rtg:
+            pols.append(("TetriSched_CPLEX", "planner", S.TetriSchedCPLEXScheduler(
+                runtime=z, lookahead=la, enforce_deadlines=True, retract_schedules=retract, goal="max_goodput",
+                time_discretization=EventTime(disc, US), plan_ahead=EventTime(8, US), time_limit=EventTime(-1, EventTime.Unit.S))))
+        pols.append(("Z3", "z3", S.Z3Scheduler(runtime=z, lookahead=la, enforce_deadlines=False, goal="max_slack",
+                                               retract_schedules=retract, release_taskgraphs=rtg)))
+    for _, _, p in pols:
+        p._logger.handlers.clear()
+        p._logger.addHandler(logging.NullHandler())
+        p._logger.setLevel(logging.CRITICAL)
+        p._logger.propagate = False
+    ctx._pols = pols
+    return pols
+
+
+def _shadow_invocations(ctx, sim_time, workload, worker_pools, policy, rng):
+    """C10 on states only this harness reaches: the bundled policies are invoked on the live state of a chaos-driven run,
+    their answers are judged by policymon.check_decision against the harness' own records and discarded."""
+    import os
+    import traceback
+    from . import policymon
+    now = sim_time.time
+    base = {"t": now, "preemptive": False, "running": [], "scheduled": {}, "release_known": {},
+            "states": {tid: t._state.name for tid, t in ctx.task_obj.items()},
+            "workers": {wi["wid"]: {"pool": wi["pool"], "cap": wi["cap"]} for wi in ctx.worker_info.values()}, "pools": {}}
+    for wi in ctx.worker_info.values():
+        base["pools"].setdefault(wi["pool"], []).append(wi["wid"])
+    for widk, res in ctx.resident.items():
+        wi = ctx.worker_info[widk]
+        for key, ent in res.items():
+            ends = [now + ctx.task_obj[tid]._remaining_time.time for tid in ent["members"] if tid in ctx.task_obj]
+            base["running"].append({"task": ",".join(ctx.task_obj[tid].unique_name for tid in ent["members"] if tid in ctx.task_obj),
+                                    "worker": wi["wid"], "pool": wi["pool"], "end": max(ends) if ends else now, "demand": ent["demand"]})
+    for tid, t in ctx.task_obj.items():
+        r = ctx.rec[tid]
+        base["release_known"][tid] = r["released"] if r["released"] is not None else t._release_time.time
+        pd = ctx.policy_decision.get(tid)
+        if t._state.name == "SCHEDULED" and pd is not None and pd.is_placed() and pd.execution_strategy is not None:
+            start = max(pd.placement_time.time, now)
+            base["scheduled"][tid] = {"task": t.unique_name, "pool": pd.worker_pool_id, "worker": pd.worker_id, "start": start,
+                                      "end": start + pd.execution_strategy.runtime.time,
+                                      "demand": policymon.demand_of(pd.execution_strategy)}
+    # the planners key their variables by Task.unique_name (name@graph): graphs that hold several timestamps of one job
+    # under one name are not input they are written for
+    planners_now = ctx.planner_rounds < 6 and rng.random() < 0.3 and not ctx.name_collisions and not policy.get("p_batch")
+    if planners_now:
+        ctx.planner_rounds += 1
+    rstate = random.getstate()
+    try:
+        for name, kind, pol in _shadow_pols(ctx, policy):
+            if kind != "greedy" and not planners_now:
+                continue
+            call = dict(base, policy=type(pol).__name__, offered=None, shadow=True)
+            dig_c, dig_t = policymon.cluster_digest(worker_pools), policymon.tasks_digest(workload)
+            ctx.shadow_call = call
+            try:
+                if kind != "greedy":
+                    # size guard (solver licence limits): what would be offered under the mirrored frontier options
+                    import workload as wlm
+                    noff = len(workload.get_schedulable_tasks(sim_time, pol.lookahead, False, pol.retract_schedules, worker_pools,
+                                                              getattr(pol, "policy", wlm.BranchPredictionPolicy.ALL), 0.5,
+                                                              pol.release_taskgraphs))
+                    call["offered"] = None
+                    if noff == 0 or noff > (4 if kind == "z3" else 8):
+                        ctx.count("shadow_skipped_large" if noff else "shadow_skipped_empty")
+                        continue
+                ret = pol.schedule(sim_time, workload, worker_pools)
+            except BaseException as e:  # noqa
+                if isinstance(e, (KeyboardInterrupt, Watchdog, TimeoutError)):
+                    raise
+                if (type(e).__name__ == "GurobiError" and "size-limited" in str(e)) or type(e).__name__ == "DOcplexLimitsExceeded":
+                    ctx.count("shadow_tooling_limit")
+                    continue
+                tb = traceback.extract_tb(e.__traceback__)
+                frames = [f for f in tb if f.filename.startswith(common.REPO)]
+                where = f"{os.path.relpath(frames[-1].filename, common.REPO)}:{frames[-1].name}" if frames else "?"
+                ctx.violate("C10", f"schedule_raises:{type(e).__name__}@{where}",
+                            f"shadow {name} at t={now}: {type(e).__name__}: {str(e)[:200]}", policy=type(pol).__name__, shadow=name)
+                continue
+            finally:
+                ctx.shadow_call = None
+            ctx.count("shadow_calls")
+            ctx.count("shadow_calls_" + type(pol).__name__)
+            if call["running"] or call["scheduled"]:
+                ctx.count("shadow_calls_busy")
+            pls = list(ret)
+            if any(call["release_known"].get(id(t), -1) > now for t in (call["offered"] or [])):
+                ctx.count("shadow_calls_offered_future_release")
+            if policymon.cluster_digest(worker_pools) != dig_c:
+                ctx.violate("C10", "side_effect_cluster", f"{name} at {now} changed the live cluster", policy=type(pol).__name__)
+            if policymon.tasks_digest(workload) != dig_t:
+                ctx.violate("C10", "side_effect_tasks", f"{name} at {now} changed task state", policy=type(pol).__name__)
+            policymon.check_decision(call, pls, lambda k, d: ctx.violate("C10", k, f"{name} (shadow, chaos state) at t={now}: {d}",
+                                                                        policy=type(pol).__name__, greedy=(kind == "greedy")))
+            if call.get("input_infeasible"):
+                ctx.count("shadow_calls_input_infeasible")
+            for hook in ctx.decision_hooks:
+                hook(ctx, call, pol, pls, sim_time, workload, worker_pools)
+    finally:
+        ctx.shadow_call = None
+        random.setstate(rstate)
+
+
 _INSTALLED = False
 
 
-def run_direct(world, wall_s=30):
+def run_direct(world, wall_s=30, shadow=False, decision_hooks=()):
     """returns Ctx with .viol, .counters, .status"""
     global _CTX, _INSTALLED
     import signal
@@ -485,6 +688,8 @@ def run_direct(world, wall_s=30):
     def us(t):
         return EventTime(t, EventTime.Unit.US)
     ctx = Ctx(world)
+    ctx.shadow = shadow
+    ctx.decision_hooks = list(decision_hooks)
     ctx.by_key, ctx.parents, ctx.caps = {}, {}, {}
     pools = []
     for p in world["pools"]:
@@ -495,6 +700,8 @@ def run_direct(world, wall_s=30):
             ctx.caps[id(wo)] = dict(w["cap"])
             ws.append(wo)
         pools.append(wk.WorkerPool(name=p["name"], workers=ws, _logger=lg))
+        for wo in ws:
+            ctx.worker_info[id(wo)] = {"wid": wo.id, "pool": pools[-1].id, "cap": dict(ctx.caps[id(wo)])}
     tgs = {}
     all_tasks = {}
     for g in world["graphs"]:
@@ -502,7 +709,7 @@ def run_direct(world, wall_s=30):
         for t in g["tasks"]:
             strategies = wl.ExecutionStrategies(strategies=[
                 wl.ExecutionStrategy(resources=wl.Resources(resource_vector={wl.Resource(name=n, _id="any"): q for n, q in req.items()}, _logger=lg),
-                                     batch_size=1, runtime=us(rt)) for req, rt in t["strategies"]])
+                                     batch_size=t.get("batch_size", 1), runtime=us(rt)) for req, rt in t["strategies"]])
             prof = wl.WorkProfile(name=f"{g['name']}_{t['job']}_profile", execution_strategies=strategies)
             ctx.task_spec[(g["name"], t["job"], t["ts"])] = t
             objs[(t["job"], t["ts"])] = wl.Task(name=t["job"], task_graph=g["name"], job=wl.Job(name=t["job"], profile=prof),
@@ -514,9 +721,14 @@ def run_direct(world, wall_s=30):
             ctx.parents.setdefault((g["name"], b[0], b[1]), []).append((g["name"], a[0], a[1]))
         for k, o in objs.items():
             tg.add_task(o, kids[k])
-            all_tasks[(g["name"], k[0], k[1])] = o
+            key = (g["name"], k[0], k[1])
+            all_tasks[key] = o
+            ctx.rec[id(o)] = ctx.by_key[key] = {"key": key, "released": None, "starts": [], "finishes": [], "decision": None}
+            ctx.task_obj[id(o)] = o
         tgs[g["name"]] = tg
     workload = wl.Workload.from_task_graphs(tgs)
+    names = [t.unique_name for t in all_tasks.values()]
+    ctx.name_collisions = len(names) != len(set(names))
 
     class OneShot(BaseWorkloadLoader):
         def __init__(self):
